@@ -30,6 +30,10 @@ Proof. reflexivity. Qed.
    restart); it is not passed over as "projector not defined in that workspace" *)
 Lemma missing_descriptor_is_an_error : c09_descriptor_must_exist = true.
 Proof. reflexivity. Qed.
+(* an event is kept until the flush that stores the intents the projector derived from it (repair of
+   finding C09-F2, /repo dcac0bf9f): DoAsync no longer releases it while its intents are buffered *)
+Lemma events_are_held_until_their_flush : c09_event_released_before_flush = false.
+Proof. reflexivity. Qed.
 Lemma pipeline_input_has_room : 0 < c09_pipeline_stdin_cap.
 Proof. reflexivity. Qed.
 
@@ -144,18 +148,47 @@ Theorem accepted_traces_are_runs : forall c l l' s,
   elaborate c init l = Some (l', s) -> dom_ok 0 l = true -> runG false c init l' = Some s.
 Proof. exact (fun c l l' s H => elaborate_runG_proved c l init l' s H). Qed.
 
+(* What is stored for an event is that event's own effect: the content of the rows is not part of the
+   model's state, the harness looks at it (`Check p rows mails bad`, bad = stored rows whose content is
+   not their event's), and in the code's configurations no run contains a look that found such a row. *)
+Theorem stored_rows_have_their_events_content : forall lim nb pt l s,
+  runG false (code_cfg lim nb pt) init l = Some s ->
+  forall p effs ms bad, In (Check p effs ms bad) l -> bad = [].
+Proof.
+  exact (fun lim nb pt l s => stored_content_is_own_proved false (code_cfg lim nb pt) l s events_are_held_until_their_flush).
+Qed.
+
+(* The variant of the model in which DoAsync releases the event although its intents stay in the bundle
+   (c_earlyrel = true: the code before dcac0bf9f, finding C09-F2) admits a look at the store that finds rows
+   1 and 2 with the content of a later event: buffered intents point into the released events' pooled
+   buffers, the next single reads fill those buffers again, the flush stores what is there. *)
+Theorem stored_rows_content_refuted : exists c l s p effs ms bad,
+  0 < c_batch c /\ c_nulllast c = true /\ c_descmust c = true /\ c_earlyrel c = true /\
+  runG false c init l = Some s /\ In (Check p effs ms bad) l /\ bad <> [].
+Proof.
+  exists (mkCfg 100 false 3 50 1 true true true true).
+  exists [Start; RInitOk 0; RReadEnd []; Append (mkEv true 1001 false); Notify 1; HDeliver; RReadOne 1 true; HLoopExit; HSend;
+          HTake; HNextRound; HLoopExit; PLookup 1 true; PInvoke 1 true;
+          Append (mkEv true 1001 false); Notify 2; HDeliver; RReadOne 2 true; HLoopExit; HSend;
+          HTake; HNextRound; HLoopExit; PLookup 2 true; PInvoke 2 true;
+          Append (mkEv true 1001 false); Notify 3; HDeliver; RReadOne 3 true; HLoopExit; HSend;
+          HTake; HNextRound; HLoopExit; PLookup 3 true; PInvoke 3 true;
+          Tick; HTimer; PFlushStart; PPutWS 1001 [1; 2; 3] VOk; PPutPos 3 VOk; HFlushDone; Check 3 [1; 2; 3] [] [1; 2]].
+  eexists. exists 3, [1; 2; 3], [], [1; 2].
+  split; [reflexivity|]. split; [reflexivity|]. split; [reflexivity|]. split; [reflexivity|].
+  split; [vm_compute; reflexivity|]. split; [|discriminate].
+  cbn. repeat match goal with |- _ \/ _ => first [left; reflexivity | right] end.
+Qed.
+
 (* ... and the oracle the check evaluates on observed values alone (`satisfies`) passes on every such
-   trace: what `satisfies` demands is implied by the theorems.  The one thing the model leaves open is the
-   content of stored rows while DoAsync releases an event whose intents are still buffered (finding
-   C09-F2: `no_bad` = no look at the store found a row with another event's content); once events are
-   held until their flush the hypothesis is void and an oracle failure never comes from a trace on
-   which code and model agree. *)
+   trace: what `satisfies` demands is implied by the theorems, so an oracle failure never comes from
+   a trace on which code and model agree. *)
 Theorem agrees_implies_satisfies : forall t,
   (t_quiet t = true -> exists l0 p effs ms bad, t_acts t = l0 ++ [Check p effs ms bad]) ->
-  (c09_event_released_before_flush = true -> no_bad (t_acts t) = true) ->
   agrees t = true -> dom_ok 0 (t_acts t) = true -> satisfies t = true.
 Proof.
-  exact (fun t => agrees_implies_satisfies_proved t (code_cfg_ok _ _ _) (fun _ => view_storage_is_flushed_last)).
+  intros t Hend. apply (agrees_implies_satisfies_proved t (code_cfg_ok _ _ _) (fun _ => view_storage_is_flushed_last) Hend).
+  intros X. cbn in X. rewrite events_are_held_until_their_flush in X. discriminate X.
 Qed.
 
 (* ---- non-vacuity ---- *)
@@ -223,4 +256,6 @@ Print Assumptions position_le_effects_refuted_without_descriptor_error.
 Print Assumptions resume_not_past_unpersisted.
 Print Assumptions quiescent_all_effects.
 Print Assumptions accepted_traces_are_runs.
+Print Assumptions stored_rows_have_their_events_content.
+Print Assumptions stored_rows_content_refuted.
 Print Assumptions agrees_implies_satisfies.
